@@ -26,6 +26,7 @@ EXPLANATION = ('bounded stand-in: for each public indicator inside the subset, (
                '(ii) its last entry is the non-sequential result on the same input, (iii) on an input longer than the warm-up window '
                'the non-sequential result is the sequential result on the trailing window - term by term')
 MANIFEST = {
+    'technique': 'contract-based deductive verification: term-congruence proof over the real wrapper ASTs (unbounded, pyvc/absint.py); bounded symbolic execution (z3) and bounded native comparison where it does not apply',
     'category': 'proof',
     'text': 'Unbounded layer: the real AST of every public indicator wrapper with a `sequential` parameter is executed over an '
             'uninterpreted term algebra (pyvc/absint.py) twice - sequential=False on candles c, sequential=True on the trailing warm-up '
